@@ -5,5 +5,6 @@ CL == INSTANCE Cluster
 CInit(e) == {CL!ClInit(e)}
 CStep(s, e) == CL!ClStep(s, e)
 VARIABLES l, poss, cur, failed, skip
-INSTANCE TraceLoop WITH InitStates <- CInit, Step <- CStep
+NoOne(e) == ""
+INSTANCE TraceLoop WITH InitStates <- CInit, Step <- CStep, One <- NoOne
 =============================================================================
